@@ -154,6 +154,9 @@ Definition sum_amounts (ps : list (str * dec * str)) : dec :=
   fold_left (fun acc x => add acc (amount_of x)) ps (mkDec 0 0).
 Definition txn_balanced_b (ps : list (str * dec * str)) : bool := is_zero (sum_amounts ps).
 
+Definition entry_balanced (e : sentry) : Prop :=
+  match e with ETxn _ _ ps => txn_balanced_b ps = true | _ => True end.
+
 Definition mem (a : str) (l : list str) : bool := existsb (str_eqb a) l.
 Fixpoint mem_dated (a : str) (d : Z) (l : list (str * Z)) : bool :=
   match l with
